@@ -24,7 +24,7 @@ ASSUMPTIONS = [
     'A4 no concurrent modification between probe and effect',
 ]
 MINIMUM = {'R01.1': 2, 'R01.2': 6, 'R01.3': 1, 'R01.4': 4, 'R01.5': 1, 'R01.6': 3,
-           'R01.7': 1}
+           'R01.7': 1, 'R01.8': 1}
 ALLOWED_KINDS = {'CREATE_DIR', 'OPEN_FD', 'WRITE', 'CLOSE', 'MOVE', 'DELETE'}
 NORMALISERS = {'os.path.normpath', 'os.path.abspath', 'posixpath.normpath'}
 
@@ -168,6 +168,30 @@ def check(ctx):
             ctx.ob('R01.3', 'a failed MOVE is handled inside the attempt', not caught,
                    node=m, message='an OSError of the move escapes the attempt')
 
+    # ------------------------------------------------------------ R01.8
+    # "under files/ of exactly one trash directory, next to a same-named .trashinfo":
+    # the destination name must be known to be free (no-follow), else the payload is
+    # merged into / replaces an orphan
+    for o in r.opens:
+        info_ids = alt_ids(r.info_of(o))
+        free = False
+        for c, pol, n in guards(b, o.id):
+            c2, pol2 = unwrap_not(c, pol)
+            pn = probe_result_of(c2)
+            if pn is None or pol2:
+                continue
+            pd = g.n(pn).data
+            tg = [match_pbc(a) for a in flat(pd['args'][0])] if pd['args'] else []
+            if pd['role'] == 'presence' and not pd['follow'] and tg and \
+                    all(t is not None for t in tg) and \
+                    frozenset(cid(t) for t in tg) == info_ids:
+                free = True
+        ctx.ob('R01.8', 'the payload name is known to be free (no-follow) before it is '
+                        'reserved', free, node=o,
+               message='a name is reserved although files/<name> may exist: a directory '
+                       'argument is then moved INTO an orphan directory of that name (or '
+                       'replaces an orphan), so the entry does not sit under files/ as '
+                       'itself')
     # ------------------------------------------------------------ R01.4
     either_rule(ctx, r)
 
